@@ -88,6 +88,9 @@ class Ranger:
                 op = {"Lt": "Ge", "Ge": "Lt", "Le": "Gt", "Gt": "Le", "Eq": "Ne", "Ne": "Eq"}.get(op)
             if op is None:
                 continue
+            if y == e and x[0] == "int":
+                x, y = y, x
+                op = {"Lt": "Gt", "Gt": "Lt", "Le": "Ge", "Ge": "Le", "Eq": "Eq", "Ne": "Ne"}.get(op, op)
             if x == e and y[0] == "int":
                 kk = y[1]
                 lo, hi = b if b else (None, None)
